@@ -88,7 +88,7 @@ func atomicRules(c *Ctx, rule string, names []string) {
 		var mods []ssa.Instruction // instructions after which the tree is modified
 		var modEdges [][]Edge      // success edges of mutating calls that can fail (recursion)
 		var modCalls []ssa.CallInstruction
-		for _, b := range fn.Blocks {
+		for _, b := range blocksIP(fn) {
 			for _, in := range b.Instrs {
 				switch x := in.(type) {
 				case *ssa.Store:
